@@ -90,8 +90,7 @@ def nontrivial(case, obs):
 
 def classify(case, obs, model, verdict, corr, detail=None):
     d = sx.rec(case)
-    if obs == ["not-a-histogram"] and d["nothist"] == "array": return "F20"
-    return None
+    return None      # F20 (ndarray + h returned a bare ndarray) was repaired in /repo: a return of it is a violation again
 
 def shrink(case):
     d = sx.rec(case)
